@@ -455,8 +455,11 @@ def e_core_dot_inv(c):
     G = _core(c)
     ltr = bool(c.rng.integers(0, 2))
     k = G.shape[2] if ltr else G.shape[0]
-    R = c.own(c.rng.standard_normal((k, k)) + 3 * np.eye(k))
-    return Call('core_dot_inv', teneva.core_dot_inv, [G, R], {'ltr': ltr})
+    R = c.rng.standard_normal((k, k)) + 3 * np.eye(k)
+    if c.rng.random() < 0.15:
+        R[int(c.rng.integers(0, k))] = 0.0                   # exactly singular: the call raises; it must still leave R alone
+    R = c.own(R)
+    return Call('core_dot_inv', teneva.core_dot_inv, [G, R], {'ltr': ltr}, may_fail=True)
 
 
 @entry()
@@ -1095,7 +1098,20 @@ def e_anova_func(c):
 def e_ANOVA_func(c):
     d = len(c.n)
     X, y = _trn_func(c, d)
-    return Call('ANOVA_func', teneva.ANOVA_func, [X, y, int(c.rng.integers(2, 5))], post=lambda o: [o.cores(), o.coeffs])
+    nn = int(c.rng.integers(2, 5))
+
+    def post(o):
+        return [o.cores(e=1e-1), o.cores(e=1e-10), o.cores(), o.coeffs]
+
+    def check(o):
+        # the object may be asked for cores several times, coarse first: a later request must not remember the earlier one
+        o.cores(e=1e-1)
+        a = o.cores(e=1e-10)
+        b = teneva.ANOVA_func(X, y, nn).cores(e=1e-10)
+        if len(a) != len(b) or any(p.shape != q.shape or p.tobytes() != q.tobytes() for p, q in zip(a, b)):
+            return 'ANOVA_func.cores(e=1e-10) after an earlier cores(e=1e-1) on the same object differs from the same request on a fresh object'
+        return None
+    return Call('ANOVA_func', teneva.ANOVA_func, [X, y, nn], post=post, check=check)
 
 
 # ------------------------------------------------------------------ the iterative solvers (callbacks inside)
@@ -1223,7 +1239,9 @@ def e_als(c):
             kw['allow_swap'] = True        # documented as an experimental flag; needs r and a validation set
             if c.rng.random() < 0.5:
                 kw['swap_tol'] = int(_pick(c, [1, 3, 10]))
-        kw.update(r_add=int(_pick(c, [1, 10000])), e_adap=1e-3)   # use_stab=True raises for every input on the pinned tree (orthogonalize returns a pair)
+        kw.update(r_add=int(_pick(c, [1, 10000])), e_adap=1e-3)
+        if c.rng.random() < 0.2:
+            kw['use_stab'] = True     # raises for every input on the pinned tree (orthogonalize returns a pair); kept so that a repair is exercised
     if c.rng.random() < 0.2:
         kw['allow_skip_cores'] = True
     if c.rng.random() < 0.5:
@@ -1309,7 +1327,8 @@ def e_als_func(c):
         def fh(x):
             c.monitor('als_func.fh')
             return np.stack([np.cos(j * np.asarray(x, dtype=float)) for j in range(nn)])
-        kw['fh'] = fh if c.rng.random() < 0.5 else [fh] * d
+        u = c.rng.random()
+        kw['fh'] = fh if u < 0.45 else ([fh] * d if u < 0.85 else c.own([fh]))     # a one-element list is rejected on the pinned tree
     elif c.rng.random() < 0.2:
         kw['n_max'] = n[0] + 1
     if c.rng.random() < 0.1:
